@@ -190,7 +190,8 @@ def run(A, R: Report, thorough: bool):
                     mode = kw.value.value
             if len(c.args) > 1 and isinstance(c.args[1], ast.Constant):
                 mode = c.args[1].value
-            path_ok = bool(c.args) and A.sym.expr_term(c.args[0], Ctx(f, ('inst', ci))) == A.sym.func_term(ci.lookup('log_path'), ('inst', ci))
+            path_arg = c.args[0] if c.args else next((kw.value for kw in c.keywords if kw.arg == 'filename'), None)
+            path_ok = path_arg is not None and A.sym.expr_term(path_arg, Ctx(f, ('inst', ci))) == A.sym.func_term(ci.lookup('log_path'), ('inst', ci))
             delayed = any(kw.arg == 'delay' and not (isinstance(kw.value, ast.Constant) and kw.value.value in (False, None, 0)) for kw in c.keywords) or (len(c.args) > 3)
             R.check(not delayed, 'R18.3', f'{ci.short}.get_log_handler: opened at once', key_of('delay', delayed), 'the file is opened (truncated) when the handler is created',
                     'FileHandler(delay=True) opens - and truncates - the file only when the first record is emitted: a run that logs nothing to this handler (raised log level, logging.disable) leaves the previous run\'s log in place next to the new run info',
